@@ -90,6 +90,12 @@ def run(ck, ctx):
                       "quoting delimiters are part of a name as written; they may be removed only by the id production under "
                       "normalize_names", f.loc(node))
     ck.ob("T-DELIM", "actions scanned for delimiter stripping", True, "", "")
-    ck.assumptions += ["words are separated as pre_process_data intends",
+    # ---- the seam to the line pre-processing for delimited names (E7)
+    from ..specs import seam
+    seam.check_seam(ck, ctx, [("table", dict(style=st, label=f"table, names written in style {st}", constraints=True, set_null=False))
+                              for st in ("dq", "bt", "br")])
+    ck.assumptions += ["words are separated as pre_process_data intends - discharged for the sentences of the table fragment with every name "
+                       "double-quoted / back-ticked / bracketed (incl. a double-quoted name with a blank inside) by O-canon / O-glue / O-break, "
+                       "and for plain names by C05",
                        "`every other value is unchanged under normalize_names` is decided for the values of the fragment (types, sizes, "
                        "defaults, reference actions, check text); other statement kinds rest on the def-use fact that only p_id reads the flag"]
